@@ -124,7 +124,7 @@ inductive MutK
   | htInsert (k v : Nat) | htRemove (k : Nat)
   | errSetMsg | errClear
   | iniParse | iniScalar (sec key : Nat) | iniDouble (sec key : Nat)
-  | dirRewind | sockListen | sockConnectRefused | sockClose
+  | dirRewind | sockListen | sockConnectRefused | sockClose | sockIoClosed
   | semOwn | shmOwn | shmbufOwn
   | tlsSet | tlsReplace | tlsGet
   | mmapFree | loaderSym
@@ -227,6 +227,8 @@ def mutRun (k : MutK) (o : Obj) (e : EP) : Option (ResM (Char × Option Obj × E
   | .sockConnectRefused, .sock s =>
     if s.state = 0 ∧ s.kind = 0 then some do let (c, s', e') ← sockConnectRefused s e; return (c, some (.sock s'), e') else none
   | .sockClose, .sock s => some do let s' ← sockClose s; return ('S', some (.sock s'), e)
+  | .sockIoClosed, .sock s =>
+    if s.state = 3 then some do let (c, s', e') ← sockIoClosed s e; return (c, some (.sock s'), e') else none
   | .semOwn, .sem s => some (return ('S', some (.sem { s with created := true }), e))
   | .shmOwn, .shm s => some (return ('S', some (.shm { s with created := true, lock := { s.lock with created := true } }), e))
   | .shmbufOwn, .shmbuf b =>
@@ -482,6 +484,9 @@ def parseCall (toks : List String) : Option Call :=
   | ["sock_local", s, d, e] => do some (.derive .sockLocal (← n s) (← n d) (← argOpt e))
   | ["sock_remote", s, d, e] => do some (.derive .sockRemote (← n s) (← n d) (← argOpt e))
   | ["sock_udp_echo", s, d, e] => do some (.derive .sockUdpEcho (← n s) (← n d) (← argOpt e))
+  | ["sock_io_closed", d, w, e] => do if (← n w) > 6 then none else some (.mut .sockIoClosed .sock (← n d) (← argOpt e))
+  | ["dir_create_missing", e] => do some (.glob .fileRemoveMissing (← argOpt e))
+  | ["dir_remove_missing", e] => do some (.glob .fileRemoveMissing (← argOpt e))
   | ["sock_close", d, e] => do some (.mut .sockClose .sock (← n d) (← argOpt e))
   | ["sock_free", d] => do some (.dtor .sock (← n d))
   | ["sock_from_fd", d, e] => do some (.ctor .sockFromFd (← n d) (← argOpt e))
@@ -498,6 +503,7 @@ def parseCall (toks : List String) : Option Call :=
   | ["shmbuf_new", d, nm, sz, e] => do
     let nm ← n nm; if nm ≥ 6 then none else some (.ctor (.shmbufNew nm (← n sz)) (← n d) (← argOpt e))
   | ["shmbuf_rw", d, e] => do some (.mut .nop .shmbuf (← n d) (← argOpt e))
+  | ["shmbuf_fill", d, e] => do some (.mut .nop .shmbuf (← n d) (← argOpt e))
   | ["shmbuf_own", d] => do some (.mut .shmbufOwn .shmbuf (← n d) none)
   | ["shmbuf_free", d] => do some (.dtor .shmbuf (← n d))
   | ["mutex_new", d] => do some (.ctor (.oneNew .mutex) (← n d) none)
